@@ -4,8 +4,13 @@ EXTENDS Naturals, Sequences, FiniteSets, TLC, Json, IOUtils
 Events == ndJsonDeserialize(IOEnv.EVENTS)
 VARIABLES l, nontriv, failed
 vars == <<l, nontriv, failed>>
+(* the maximum lengths HL7 gives the textual datatypes (a leaf built through SubComponent(datatype, value)) *)
+HL7Max(dt) == CASE dt = "ST" -> 199 [] dt = "IS" -> 20 [] dt = "FT" -> 65536 [] dt = "TX" -> 65536 [] OTHER -> 0
 Verdict(e) ==
-  IF e.out_s # "ok" THEN "ok"                       \* STRICT refused: nothing is claimed
+  IF e.out_s = "ok" /\ HL7Max(e.leafdt) > 0 /\ e.leaflen > HL7Max(e.leafdt) THEN "overlong_value_accepted_by_strict"
+  ELSE IF e.out_s # "ok" /\ HL7Max(e.leafdt) > 0 /\ e.leaflen <= HL7Max(e.leafdt) /\ e.out_s = "MaxLengthReached"
+       THEN "value_within_the_maximum_length_refused_by_strict"
+  ELSE IF e.out_s # "ok" THEN "ok"                       \* STRICT refused: nothing is claimed
   ELSE IF e.out_t # "ok" THEN "accepted_by_strict_rejected_by_tolerant"
   ELSE IF e.enc_t # e.enc_s THEN "encoding_differs_between_levels"
   ELSE IF e.rep_t # e.rep_s THEN "validation_report_differs_between_levels"
